@@ -414,6 +414,8 @@ def resize_image_to_macro_block(
 def _load_images(frames_dir: str) -> list:
     frames = [
         os.path.join(frames_dir, frame)
-        for frame in sorted(os.listdir(frames_dir))
+        for frame in sorted(
+            os.listdir(frames_dir), key=lambda name: (len(name), name)
+        )
     ]
     return [imageio.imread(frame) for frame in frames]
